@@ -421,6 +421,98 @@ func errorExits(fd *ast.FuncDecl) []string {
 	return out
 }
 
+// package-level `var` names of every non-test file of a package directory
+func packageVars(pkgdir string) map[string]bool {
+	out := map[string]bool{}
+	ents, err := os.ReadDir(pkgdir)
+	if err != nil {
+		fail(err.Error())
+	}
+	for _, e := range ents {
+		n := e.Name()
+		if e.IsDir() || !strings.HasSuffix(n, ".go") || strings.HasSuffix(n, "_test.go") {
+			continue
+		}
+		f := parse(pkgdir + n)
+		for _, d := range f.Decls {
+			g, ok := d.(*ast.GenDecl)
+			if !ok || g.Tok != token.VAR {
+				continue
+			}
+			for _, sp := range g.Specs {
+				for _, nm := range sp.(*ast.ValueSpec).Names {
+					out[nm.Name] = true
+				}
+			}
+		}
+	}
+	return out
+}
+
+// hash path facts: which package-level variables (state!) a function reads or writes, and the
+// set of callees. A cache / memo table / counter consulted by the hash-to-curve path shows up in
+// the first list, a new helper on the path in the second.
+func stateAndCalls(fd *ast.FuncDecl, vars map[string]bool) (globals, calls []string) {
+	local := map[string]bool{}
+	if fd.Recv != nil {
+		for _, f := range fd.Recv.List {
+			for _, n := range f.Names {
+				local[n.Name] = true
+			}
+		}
+	}
+	for _, f := range fd.Type.Params.List {
+		for _, n := range f.Names {
+			local[n.Name] = true
+		}
+	}
+	gs, cs := map[string]bool{}, map[string]bool{}
+	en := &env{names: map[string]string{}}
+	ast.Inspect(fd.Body, func(n ast.Node) bool {
+		switch x := n.(type) {
+		case *ast.AssignStmt:
+			if x.Tok == token.DEFINE {
+				for _, l := range x.Lhs {
+					if id, ok := l.(*ast.Ident); ok {
+						local[id.Name] = true
+					}
+				}
+			}
+		case *ast.SelectorExpr:
+			// only the root of a selector can be a package-level variable
+			if id, ok := x.X.(*ast.Ident); ok && vars[id.Name] && !local[id.Name] {
+				gs[id.Name] = true
+			}
+			return false
+		case *ast.Ident:
+			if vars[x.Name] && !local[x.Name] {
+				gs[x.Name] = true
+			}
+		case *ast.CallExpr:
+			switch f := x.Fun.(type) {
+			case *ast.Ident:
+				cs[f.Name] = true
+			case *ast.SelectorExpr:
+				cs["."+f.Sel.Name] = true
+				if id, ok := f.X.(*ast.Ident); ok && !local[id.Name] {
+					cs[render(f, en)] = true
+					delete(cs, "."+f.Sel.Name)
+				}
+			}
+		}
+		return true
+	})
+	for k := range gs {
+		globals = append(globals, k)
+	}
+	for k := range cs {
+		calls = append(calls, k)
+	}
+	sort.Strings(globals)
+	sort.Strings(calls)
+	return
+}
+
 func leanStr(s string) string {
 	s = strings.ReplaceAll(s, "\\", "\\\\")
 	s = strings.ReplaceAll(s, "\"", "\\\"")
@@ -429,6 +521,9 @@ func leanStr(s string) string {
 
 func leanList(name, doc string, xs []string) string {
 	var sb strings.Builder
+	if len(xs) == 0 {
+		return "/-- " + doc + " -/\ndef " + name + " : List String := []\n\n"
+	}
 	sb.WriteString("/-- " + doc + " -/\ndef " + name + " : List String := [\n")
 	for i, x := range xs {
 		sb.WriteString("  " + leanStr(x))
@@ -513,6 +608,19 @@ func main() {
 	s.WriteString(leanList("g1UnmarshalExits", "bn256.go: exits of G1.Unmarshal with their path conditions", errorExits(findFunc(bnf, "G1", "Unmarshal"))))
 	s.WriteString(leanList("g2UnmarshalExits", "bn256.go: exits of G2.Unmarshal with their path conditions", errorExits(findFunc(bnf, "G2", "Unmarshal"))))
 	s.WriteString(leanList("curveIsOnCurve", "curve.go: curvePoint.IsOnCurve exits", errorExits(findFunc(crv, "curvePoint", "IsOnCurve"))))
+	bcf := parse(dir + "bn_curve.go")
+	gvars := packageVars(dir)
+	bvars := packageVars(dir + "bn256/")
+	g1, c1 := stateAndCalls(findFunc(bcf, "", "hashToG1"), gvars)
+	g2, c2 := stateAndCalls(findFunc(bnf, "G1", "HashToPoint"), bvars)
+	g3, c3 := stateAndCalls(findFunc(bnf, "", "hashToCurvePoint"), bvars)
+	s.WriteString(leanList("hashToG1", "bn_curve.go: hashToG1", shape(findFunc(bcf, "", "hashToG1"))))
+	s.WriteString(leanList("hashToG1State", "bn_curve.go: package-level variables hashToG1 touches (must stay empty: no cache, no state)", g1))
+	s.WriteString(leanList("hashToG1Calls", "bn_curve.go: callees of hashToG1", c1))
+	s.WriteString(leanList("hashToPointState", "bn256.go: package-level variables G1.HashToPoint touches", g2))
+	s.WriteString(leanList("hashToPointCalls", "bn256.go: callees of G1.HashToPoint", c2))
+	s.WriteString(leanList("hashToCurvePointState", "bn256.go: package-level variables hashToCurvePoint touches (only the modulus)", g3))
+	s.WriteString(leanList("hashToCurvePointCalls", "bn256.go: callees of hashToCurvePoint", c3))
 	s.WriteString("end Rangers.Generated.Bls14.Shape\n")
 
 	fmt.Println("-----FILE Bls14Consts.lean")
